@@ -239,6 +239,20 @@ func jsonExpr(n *e1.Node) string {
 		// introducers are written escaped, as in the native syntax
 		s = strings.NewReplacer("${", "$${", "%{", "%%{").Replace(s)
 		return fmt.Sprintf("%q", s)
+	case "object":
+		var ms []string
+		for i := 0; i+1 < len(n.Sub); i += 2 {
+			k := n.Sub[i]
+			name := k.S
+			if k.K == "tpl" {
+				name = ""
+				for _, p := range k.Sub {
+					name += p.S
+				}
+			}
+			ms = append(ms, fmt.Sprintf("%q: %s", name, jsonExpr(n.Sub[i+1])))
+		}
+		return "{" + strings.Join(ms, ", ") + "}"
 	}
 	panic("jsonExpr: unsupported literal " + n.K)
 }
